@@ -76,6 +76,15 @@ def key_like_use(node):
         return 'index'
     if isinstance(p, ast.BinOp) and isinstance(p.op, (ast.Add, ast.Mod)):
         return 'concat'
+    if isinstance(p, (ast.Tuple, ast.List)):
+        gp = parent(p)
+        # "%s%d" % (t[2], t[4]) / "".join([t[1], ..]) / "{}{}".format(*[..])
+        if isinstance(gp, ast.BinOp) and isinstance(gp.op, ast.Mod) and gp.right is p:
+            return 'concat'
+        if isinstance(gp, ast.Call) and isinstance(gp.func, ast.Attribute) and gp.func.attr in ('join', 'format'):
+            return 'concat'
+    if isinstance(p, ast.Call) and isinstance(p.func, ast.Attribute) and p.func.attr == 'format' and node in p.args:
+        return 'concat'
     if isinstance(p, ast.Compare):
         return 'eq'
     if isinstance(p, ast.JoinedStr) or isinstance(p, ast.FormattedValue):
@@ -497,4 +506,5 @@ MUTANTS = [
     ('intel-untyped-imm', 'miasmx/arch/ia32_arch.py', "        x86_mn.arg_set_numpy_imm(args)\n        self.normalize_args(name, args, prefix)", "        self.normalize_args(name, args, prefix)", 'C19.D6'),
     ('mim-refuses-txt', 'miasmx/arch/ia32_arch.py', "                        if not k in [x86_afs.imm, x86_afs.ad, x86_afs.size, 'txt']:", "                        if not k in [x86_afs.imm, x86_afs.ad, x86_afs.size]:", 'C19.D7'),
     ('dx-compare-keeps-txt', 'miasmx/arch/ia32_arch.py', "                    args_sample[index_im].pop('txt', None)\n", "", 'C19.D7'),
+    ('pct-st-format-no-fold', 'miasmx/core/parse_ad.py', "    t[0] = t[2].lower() + \"%d\"%t[4]\n    t[0] ={x86_afs.reg_dict[t[0]]:1, x86_afs.size : x86_afs.f32}", "    t[0] = \"%s%d\" % (t[2], t[4])\n    t[0] ={x86_afs.reg_dict[t[0]]:1, x86_afs.size : x86_afs.f32}", 'C19.D1'),
 ]
